@@ -320,9 +320,7 @@ func (in *inliner) candidate(fi *FuncInfo, ifaceMethods map[string]bool) string 
 	if in.p.IsAnchor(fi.Name()) || fi.Canon != "" || in.p.IsNamed(name) {
 		return "named by the rules"
 	}
-	if d.Type.TypeParams != nil && len(d.Type.TypeParams.List) > 0 {
-		return "type parameters"
-	}
+	// a generic function is expanded with the type arguments the call site infers (newExpansion)
 	sig := fi.Obj.Type().(*types.Signature)
 	if sig.Params().Len() == 2 && sig.Results().Len() == 0 && sig.Params().At(0).Type().String() == "net/http.ResponseWriter" && sig.Params().At(1).Type().String() == "*net/http.Request" {
 		return "an HTTP handler: an entry point the rules reason about, not a helper"
@@ -345,10 +343,15 @@ func (in *inliner) candidate(fi *FuncInfo, ifaceMethods map[string]bool) string 
 		case *ast.GoStmt:
 			bad = "go statement"
 		case *ast.LabeledStmt:
-			bad = "label"
+			// labels of loops are renamed per expansion (newExpansion)
+			switch n.Stmt.(type) {
+			case *ast.ForStmt, *ast.RangeStmt, *ast.SwitchStmt, *ast.TypeSwitchStmt, *ast.SelectStmt:
+			default:
+				bad = "label on a plain statement"
+			}
 		case *ast.BranchStmt:
-			if n.Tok == token.GOTO || n.Label != nil {
-				bad = "label"
+			if n.Tok == token.GOTO {
+				bad = "goto"
 			}
 		case *ast.CallExpr:
 			if id, ok := ast.Unparen(n.Fun).(*ast.Ident); ok {
@@ -477,7 +480,8 @@ type callCtx struct {
 	encl     *ast.FuncDecl
 	enclLit  ast.Node // innermost FuncLit or FuncDecl
 	callInfo *types.Info
-	deferred bool // `defer helper(…)`: the arguments are evaluated now, the body runs when the caller returns
+	deferred bool                        // `defer helper(…)`: the arguments are evaluated now, the body runs when the caller returns
+	typeArgs map[types.Object]types.Type // type parameter -> type argument (generic helper, inferred instantiation)
 }
 
 // plan prepares the expansion of one reference; it returns nil and a reason when the position is not supported.
@@ -523,6 +527,16 @@ func (in *inliner) plan(fi *FuncInfo, rs refSite) (func(), string) {
 	}
 	if cc.encl == nil || cc.encl.Body == nil {
 		return nil, "call outside a function body"
+	}
+	if tps := fi.Obj.Type().(*types.Signature).TypeParams(); tps != nil && tps.Len() > 0 {
+		inst, ok := info.Instances[rs.id]
+		if !ok || inst.TypeArgs == nil || inst.TypeArgs.Len() != tps.Len() {
+			return nil, "generic helper without an inferred instantiation"
+		}
+		cc.typeArgs = map[types.Object]types.Type{}
+		for k := 0; k < tps.Len(); k++ {
+			cc.typeArgs[tps.At(k).Obj()] = inst.TypeArgs.At(k)
+		}
 	}
 	// a function literal that is not called where it stands (a goroutine, a timer, a stored callback) is a unit of its
 	// own: what it calls is not part of the enclosing function's step
@@ -637,6 +651,10 @@ func (in *inliner) newExpansion(fi *FuncInfo, cc *callCtx) (*expansion, string) 
 					if n.Name != "_" && callerNames[n.Name] {
 						ex.rename[obj] = fmt.Sprintf("%s__i%d", n.Name, ex.id)
 					}
+				}
+				if _, isLabel := obj.(*types.Label); isLabel {
+					// labels share one name space per function: always made unique
+					ex.rename[obj] = fmt.Sprintf("%s__i%d", n.Name, ex.id)
 				}
 				return true
 			}
@@ -860,7 +878,7 @@ func (in *inliner) newExpansion(fi *FuncInfo, cc *callCtx) (*expansion, string) 
 			arg := arg
 			ast.Inspect(arg, func(n ast.Node) bool {
 				if id, ok := n.(*ast.Ident); ok && addrTaken[cc.callInfo.Uses[id]] {
-					if _, isAddr := arg.(*ast.UnaryExpr); !isAddr {
+					if _, isAddr := ast.Unparen(arg).(*ast.UnaryExpr); !isAddr {
 						mentionsAddr = true
 					}
 				}
@@ -1175,6 +1193,9 @@ func (in *inliner) ensureImport(file *ast.File, pkg *packages.Package, pn *types
 
 // typeString spells t for the caller's file.
 func (in *inliner) typeString(t types.Type, cc *callCtx) (string, bool) {
+	if len(cc.typeArgs) > 0 {
+		t = substTypeParams(t, cc.typeArgs)
+	}
 	ok := true
 	scope := cc.callInfo.Scopes[cc.encl.Type]
 	if inner := scope.Innermost(cc.call.Pos()); inner != nil {
@@ -1219,6 +1240,28 @@ func (in *inliner) typeString(t types.Type, cc *callCtx) (string, bool) {
 		return "", false
 	}
 	return s, true
+}
+
+// substTypeParams replaces type parameters in the common composite types (enough for the parameter and result types of
+// small helpers); a type it cannot rebuild is returned as it is and then fails to be spelled.
+func substTypeParams(t types.Type, m map[types.Object]types.Type) types.Type {
+	switch x := t.(type) {
+	case *types.TypeParam:
+		if r, ok := m[x.Obj()]; ok {
+			return r
+		}
+	case *types.Pointer:
+		return types.NewPointer(substTypeParams(x.Elem(), m))
+	case *types.Slice:
+		return types.NewSlice(substTypeParams(x.Elem(), m))
+	case *types.Array:
+		return types.NewArray(substTypeParams(x.Elem(), m), x.Len())
+	case *types.Map:
+		return types.NewMap(substTypeParams(x.Key(), m), substTypeParams(x.Elem(), m))
+	case *types.Chan:
+		return types.NewChan(x.Dir(), substTypeParams(x.Elem(), m))
+	}
+	return t
 }
 
 // ---------- purity, stability
@@ -1384,12 +1427,20 @@ func heapFree(info *types.Info, e ast.Expr) bool {
 		case *ast.SliceExpr:
 			if tv, has := info.Types[n.X]; has {
 				if _, isStr := tv.Type.Underlying().(*types.Basic); !isStr {
-					ok = false
+					// a slice of a local array variable is a stable value (the header points into the variable)
+					_, isArr := tv.Type.Underlying().(*types.Array)
+					_, isIdent := ast.Unparen(n.X).(*ast.Ident)
+					if !(isArr && isIdent) {
+						ok = false
+					}
 				}
 			}
 		case *ast.SelectorExpr:
 			if s := info.Selections[n]; s != nil && s.Kind() == types.MethodExpr {
 				return false // T.M: a function value, reads nothing
+			}
+			if s := info.Selections[n]; s != nil && s.Kind() == types.MethodVal && !s.Indirect() {
+				return true // x.m with the receiver taken as it is: binds x, reads nothing
 			}
 			if s := info.Selections[n]; s != nil {
 				if s.Indirect() {
@@ -1880,6 +1931,97 @@ func (ex *expansion) substituted(n ast.Node, extra []inlEdit) string {
 	for _, b := range ex.binds {
 		byParam[b.param] = b
 	}
+	// for _, x := range vs { body } with vs a variadic parameter passed element by element (at most four elements) and a body
+	// without unlabelled break / continue and without declarations at its top level: the body once per element, x replaced
+	unrolled := map[*ast.Ident]bool{}
+	ast.Inspect(n, func(m ast.Node) bool {
+		rs, ok := m.(*ast.RangeStmt)
+		if !ok || rs.Tok != token.DEFINE {
+			return true
+		}
+		vid, ok := ast.Unparen(rs.X).(*ast.Ident)
+		if !ok {
+			return true
+		}
+		v, _ := finfo.Uses[vid].(*types.Var)
+		b := byParam[v]
+		if b == nil || !b.spread || !b.direct || len(b.args) == 0 || len(b.args) > 4 {
+			return true
+		}
+		if k, ok := rs.Key.(*ast.Ident); !ok || k.Name != "_" {
+			return true
+		}
+		xid, ok := rs.Value.(*ast.Ident)
+		if !ok || xid.Name == "_" {
+			return true
+		}
+		xobj := finfo.Defs[xid]
+		okBody := xobj != nil
+		for _, st := range rs.Body.List {
+			if len(topLevelDecls(st)) > 0 {
+				okBody = false
+			}
+		}
+		ast.Inspect(rs.Body, func(k ast.Node) bool {
+			switch y := k.(type) {
+			case *ast.FuncLit:
+				return false
+			case *ast.ForStmt, *ast.RangeStmt, *ast.SwitchStmt, *ast.SelectStmt, *ast.TypeSwitchStmt:
+				// an unlabelled break / continue inside belongs to it — but a continue inside a switch belongs to our loop
+				ast.Inspect(y, func(z ast.Node) bool {
+					if br, ok := z.(*ast.BranchStmt); ok && br.Label == nil && br.Tok == token.CONTINUE {
+						if _, isLoop := y.(*ast.ForStmt); !isLoop {
+							if _, isRange := y.(*ast.RangeStmt); !isRange {
+								okBody = false
+							}
+						}
+					}
+					return true
+				})
+				return false
+			case *ast.BranchStmt:
+				if y.Label == nil && (y.Tok == token.BREAK || y.Tok == token.CONTINUE) {
+					okBody = false
+				}
+			case *ast.AssignStmt:
+				for _, l := range y.Lhs {
+					if id, ok := l.(*ast.Ident); ok && finfo.Uses[id] == xobj {
+						okBody = false // the element variable is assigned to
+					}
+				}
+			case *ast.UnaryExpr:
+				if id, ok := ast.Unparen(y.X).(*ast.Ident); ok && y.Op == token.AND && finfo.Uses[id] == xobj {
+					okBody = false
+				}
+			}
+			return true
+		})
+		if !okBody {
+			return true
+		}
+		// the text of the body (without braces) with the usual substitutions, the element variable left in place …
+		bodyTxt := strings.TrimSpace(ex.substituted(rs.Body, nil))
+		bodyTxt = bodyTxt[1 : len(bodyTxt)-1]
+		// … then replaced, as a whole word, by each element in turn
+		var sb strings.Builder
+		name := xid.Name
+		if rn := ex.rename[xobj]; rn != "" {
+			name = rn
+		}
+		for _, a := range b.args {
+			el := in.text(a)
+			if needsParens(a) {
+				el = "(" + el + ")"
+			}
+			sb.WriteString("{")
+			sb.WriteString(replaceWord(bodyTxt, name, el))
+			sb.WriteString("}\n")
+		}
+		in.seq++
+		eds = append(eds, inlEdit{f.Offset(rs.Pos()), f.Offset(rs.End()), sb.String(), in.seq, 0})
+		unrolled[vid] = true
+		return false
+	})
 	// p(x, a, b) with p a parameter that is bound to the method expression T.M: x.M(a, b)
 	methodExprDone := map[*ast.Ident]bool{}
 	ast.Inspect(n, func(m ast.Node) bool {
@@ -1962,6 +2104,12 @@ func (ex *expansion) substituted(n ast.Node, extra []inlEdit) string {
 		var repl string
 		if obj := finfo.Defs[id]; obj != nil {
 			repl = ex.rename[obj]
+		} else if obj := finfo.Uses[id]; obj != nil && ex.cc.typeArgs[obj] != nil {
+			if ts, ok := in.typeString(ex.cc.typeArgs[obj], ex.cc); ok {
+				repl = ts
+			} else {
+				repl = "<type argument that cannot be spelled>" // does not type-check: the expansion is not used
+			}
 		} else if obj := finfo.Uses[id]; obj != nil {
 			if v, ok := obj.(*types.Var); ok {
 				if b := byParam[v]; b != nil {
@@ -2006,6 +2154,49 @@ func (ex *expansion) substituted(n ast.Node, extra []inlEdit) string {
 // composite-literal key `Field: param` must not be substituted as a key; go/types records field keys in Uses as fields,
 // not as parameters, so they are left alone by construction.
 
+// replaceWord replaces the identifier name by repl wherever it stands as a whole word outside string and rune literals.
+func replaceWord(src, name, repl string) string {
+	var sb strings.Builder
+	isWord := func(c byte) bool {
+		return c == '_' || (c >= '0' && c <= '9') || (c >= 'a' && c <= 'z') || (c >= 'A' && c <= 'Z') || c >= 0x80
+	}
+	for i := 0; i < len(src); {
+		c := src[i]
+		switch {
+		case c == '"' || c == '\'':
+			j := i + 1
+			for j < len(src) && src[j] != c {
+				if src[j] == '\\' {
+					j++
+				}
+				j++
+			}
+			if j >= len(src) {
+				j = len(src) - 1
+			}
+			sb.WriteString(src[i : j+1])
+			i = j + 1
+		case c == '`':
+			j := i + 1
+			for j < len(src) && src[j] != '`' {
+				j++
+			}
+			if j >= len(src) {
+				j = len(src) - 1
+			}
+			sb.WriteString(src[i : j+1])
+			i = j + 1
+		case strings.HasPrefix(src[i:], name) && (i == 0 || (!isWord(src[i-1]) && src[i-1] != '.')) && (i+len(name) >= len(src) || !isWord(src[i+len(name)])):
+			sb.WriteString(repl)
+			i += len(name)
+		default:
+			sb.WriteByte(c)
+			i++
+		}
+	}
+	return sb.String()
+}
+
 func (in *inliner) lineDirective(pos token.Pos) string {
 	pp := in.p.Fset.Position(pos)
 	return fmt.Sprintf("\n//line %s:%d\n", pp.Filename, pp.Line)
@@ -2045,9 +2236,7 @@ func (in *inliner) planHoist(fi *FuncInfo, cc *callCtx, rets []*ast.ReturnStmt, 
 	if tv, has := finfo.Types[res]; !has || tv.Value != nil || tv.IsNil() || !types.Identical(tv.Type, sig.Results().At(0).Type()) {
 		return nil, "operand of an expression (result needs a conversion)"
 	}
-	if len(in.effectsOf(fi)) > 0 {
-		return nil, "operand of an expression (the helper changes shared state)"
-	}
+	hasEffects := len(in.effectsOf(fi)) > 0
 	// the statement, and the path from it to the call
 	st := cc.rs.stack
 	si := -1
@@ -2135,6 +2324,47 @@ func (in *inliner) planHoist(fi *FuncInfo, cc *callCtx, rets []*ast.ReturnStmt, 
 	if !ok {
 		return nil, "operand evaluated after something with effects"
 	}
+	if hasEffects {
+		// a helper that changes shared state may still run first if nothing the statement evaluates before the call reads
+		// shared state (plain variables, constants, the names of the functions called)
+		reads := false
+		ast.Inspect(stmt, func(n ast.Node) bool {
+			if n == nil || reads {
+				return false
+			}
+			if n.Pos() >= cc.call.Pos() {
+				return false
+			}
+			if e, isExpr := n.(ast.Expr); isExpr && e.End() <= cc.call.Pos() {
+				switch e.(type) {
+				case *ast.SelectorExpr, *ast.IndexExpr, *ast.StarExpr, *ast.SliceExpr, *ast.CallExpr:
+					if !heapFree(cc.callInfo, e) {
+						reads = true
+					}
+				}
+			}
+			return true
+		})
+		if reads {
+			return nil, "operand of an expression (the helper changes shared state that the statement reads before the call)"
+		}
+		// what comes after the call in the statement is evaluated after the helper either way
+	}
+	// may the result expression stand where the call stood? Only if nothing that runs later in the statement can change
+	// what it reads
+	bindResult := false
+	if !heapFree(finfo, res) {
+		ast.Inspect(stmt, func(n ast.Node) bool {
+			if c2, isCall := n.(*ast.CallExpr); isCall && c2.Pos() >= cc.call.End() && !in.pureCall(cc.callInfo, c2) {
+				bindResult = true
+			}
+			if u, isU := n.(*ast.UnaryExpr); isU && u.Op == token.ARROW && u.Pos() >= cc.call.End() {
+				bindResult = true
+			}
+			return true
+		})
+		// an assignment statement writes its left-hand side after everything was evaluated: no reordering there
+	}
 	ex, reason := in.newExpansion(fi, cc)
 	if ex == nil {
 		return nil, reason
@@ -2168,11 +2398,22 @@ func (in *inliner) planHoist(fi *FuncInfo, cc *callCtx, rets []*ast.ReturnStmt, 
 		sb.WriteString(inner)
 		sb.WriteString(in.resync(before.Pos()))
 		group := 1000 + ex.id
-		in.addGroupEdit(before.Pos(), before.Pos(), sb.String(), group)
 		txt := ex.substituted(res, nil)
 		if needsParens(res) {
 			txt = "(" + txt + ")"
 		}
+		if bindResult {
+			// the result is read where the call stood; Go orders calls, not plain reads, so a later call of the same
+			// statement could change what the expression reads: keep the value in a local
+			tmp := fmt.Sprintf("r__i%d", ex.id)
+			sbs := sb.String()
+			k := strings.LastIndex(sbs, "\n//line ")
+			sbs = sbs[:k] + fmt.Sprintf("\n%s := %s", tmp, txt) + sbs[k:]
+			in.addGroupEdit(before.Pos(), before.Pos(), sbs, group)
+			in.addGroupEdit(cc.call.Pos(), cc.call.End(), tmp, group)
+			return
+		}
+		in.addGroupEdit(before.Pos(), before.Pos(), sb.String(), group)
 		in.addGroupEdit(cc.call.Pos(), cc.call.End(), txt, group)
 	}, ""
 }
@@ -2373,7 +2614,9 @@ func (in *inliner) planStmt(fi *FuncInfo, cc *callCtx) (func(), string) {
 	var ifs *ast.IfStmt
 	negated := false
 	tailReturn := false
+	tailRetText := ""
 	var unify []types.Object // locals of the helper that become the variables the call site defines
+	var thread *threadPlan   // `x, ok := helper(); if !ok { return … }`: early returns of the helper go straight to the guard's body
 	switch pn := parent.(type) {
 	case *ast.ExprStmt:
 		if !inList(pn, cc.callIdx-1) {
@@ -2389,6 +2632,9 @@ func (in *inliner) planStmt(fi *FuncInfo, cc *callCtx) (func(), string) {
 			tailReturn = tailOf(cc.enclLit, pn)
 		} else if tailOf(cc.enclLit, pn) {
 			md = mReturn // a return of the helper is a return of the caller
+		} else if t := tailBeforeConstReturn(cc.callInfo, cc.enclLit, pn, in); t != "" {
+			// after the call nothing runs but `return <constants>`: a return of the helper is that return
+			tailRetText = t
 		}
 	case *ast.AssignStmt:
 		if len(pn.Rhs) != 1 || ast.Unparen(pn.Rhs[0]) != ast.Expr(cc.call) && pn.Rhs[0] != ast.Expr(cc.call) || len(pn.Lhs) != nres || (pn.Tok != token.ASSIGN && pn.Tok != token.DEFINE) {
@@ -2417,6 +2663,9 @@ func (in *inliner) planStmt(fi *FuncInfo, cc *callCtx) (func(), string) {
 		md, target = mAssign, pn
 		if pn.Tok == token.DEFINE {
 			unify = in.unifiable(fi, cc, pn, rets, last)
+			if unify == nil && cc.callIdx >= 2 {
+				thread = in.threadable(fi, cc, pn, st[cc.callIdx-2], rets, last)
+			}
 		}
 	case *ast.ReturnStmt:
 		if len(pn.Results) != 1 {
@@ -2508,7 +2757,7 @@ func (in *inliner) planStmt(fi *FuncInfo, cc *callCtx) (func(), string) {
 	default:
 		return in.planHoist(fi, cc, rets, last)
 	}
-	if hasDefer(fi.Decl) && md != mReturn && md != mDefer {
+	if hasDefer(fi.Decl) && md != mReturn && md != mDefer && tailRetText == "" {
 		return nil, "defer in a helper whose return is not a return of the caller"
 	}
 	if callsRecover(fi.Pkg.TypesInfo, fi.Decl) && md != mDefer {
@@ -2543,8 +2792,92 @@ func (in *inliner) planStmt(fi *FuncInfo, cc *callCtx) (func(), string) {
 			}
 		}
 	}
+	if thread != nil {
+		finfo := fi.Pkg.TypesInfo
+		for name := range ex.freeNames {
+			for _, l := range lhs {
+				if l == name {
+					thread = nil
+				}
+			}
+		}
+		if thread != nil {
+			for _, st := range body.List {
+				for _, id := range topLevelDecls(st) {
+					if obj := finfo.Defs[id]; obj != nil && id.Name != "_" {
+						ex.rename[obj] = fmt.Sprintf("%s__i%d", id.Name, ex.id)
+					}
+				}
+			}
+			for i, obj := range thread.unified {
+				if obj != nil && lhs[i] != "_" {
+					ex.rename[obj] = lhs[i]
+				}
+			}
+		}
+	}
 	return func() {
 		needLabel := false
+		if thread != nil {
+			ff := in.p.Fset.File(fi.Decl.Pos())
+			var extra []inlEdit
+			ed := func(s, e token.Pos, t string) {
+				in.seq++
+				extra = append(extra, inlEdit{ff.Offset(s), ff.Offset(e), t, in.seq, 0})
+			}
+			guardBody := in.text(thread.guard.Body)
+			for _, r := range rets {
+				if ast.Stmt(r) == last {
+					// the final return: assign the positions that are not the helper's own locals
+					var ls, rs []string
+					for i, res := range r.Results {
+						if thread.unified[i] != nil {
+							continue
+						}
+						if lhs[i] == "_" {
+							ls, rs = append(ls, "_"), append(rs, ex.substituted(res, nil))
+							continue
+						}
+						ls, rs = append(ls, lhs[i]), append(rs, ex.substituted(res, nil))
+					}
+					if len(ls) == 0 {
+						ed(r.Pos(), r.End(), "")
+					} else {
+						ed(r.Pos(), r.End(), strings.Join(ls, ", ")+" = "+strings.Join(rs, ", "))
+					}
+					continue
+				}
+				// an early return: the guard fires; its body mentions at most the variables assigned here
+				var ls, rs []string
+				for i, res := range r.Results {
+					if lhs[i] == "_" || !mentionsName(thread.guard.Body, lhs[i]) {
+						continue
+					}
+					ls, rs = append(ls, lhs[i]), append(rs, ex.substituted(res, nil))
+				}
+				as := ""
+				if len(ls) > 0 {
+					as = strings.Join(ls, ", ") + " = " + strings.Join(rs, ", ") + "; "
+				}
+				ed(r.Pos(), r.End(), "{ "+as+guardBody+" }")
+			}
+			inner := strings.TrimSpace(ex.substituted(body, extra))
+			inner = inner[1 : len(inner)-1]
+			var sb strings.Builder
+			for i, d := range thread.decls {
+				if d != "" && lhs[i] != "_" {
+					sb.WriteString(d + "; ")
+				}
+			}
+			for _, pl := range ex.prelude {
+				sb.WriteString(pl + "; ")
+			}
+			sb.WriteString(in.lineDirective(body.Lbrace))
+			sb.WriteString(inner)
+			sb.WriteString(in.resync(target.End()))
+			in.addEdit(target.Pos(), target.End(), sb.String())
+			return
+		}
 		if unify != nil {
 			ff := in.p.Fset.File(fi.Decl.Pos())
 			in.seq++
@@ -2637,7 +2970,13 @@ func (in *inliner) planStmt(fi *FuncInfo, cc *callCtx) (func(), string) {
 			}
 			switch md {
 			case mStmt:
-				if ast.Stmt(r) == last {
+				if tailRetText != "" {
+					if ast.Stmt(r) == last {
+						ed(r.Pos(), r.End(), "")
+					} else {
+						ed(r.Pos(), r.End(), tailRetText)
+					}
+				} else if ast.Stmt(r) == last {
 					ed(r.Pos(), r.End(), "")
 				} else {
 					needLabel = true
@@ -2797,6 +3136,199 @@ func (in *inliner) unifiable(fi *FuncInfo, cc *callCtx, as *ast.AssignStmt, rets
 	return out
 }
 
+// threadPlan: `a, ok := helper(…)` is followed by `if !ok { A }` (or `if err != nil { A }`) with A ending in return / panic /
+// continue, every early return of the helper makes that guard fire (a constant in the tested position), and the helper ends
+// in its final return. Then an early return can run A on the spot, the body needs no labelled exit and stays flat, and a
+// result position that always carries the same top-level local of the helper (or a constant on the early returns) is that
+// local — `cmd, ok := Commands[k]` of the helper is the caller's `cmd`.
+type threadPlan struct {
+	guard   *ast.IfStmt
+	unified []types.Object // per result position: the helper's local that becomes the caller's variable, or nil
+	decls   []string       // per result position: `var x T` for positions that are assigned (not unified)
+}
+
+func mentionsName(n ast.Node, name string) bool {
+	found := false
+	ast.Inspect(n, func(m ast.Node) bool {
+		if id, ok := m.(*ast.Ident); ok && id.Name == name {
+			found = true
+		}
+		return true
+	})
+	return found
+}
+
+func (in *inliner) threadable(fi *FuncInfo, cc *callCtx, as *ast.AssignStmt, parent ast.Node, rets []*ast.ReturnStmt, last ast.Stmt) *threadPlan {
+	if len(rets) < 2 || hasNamedResults(fi.Decl) || hasDefer(fi.Decl) {
+		return nil
+	}
+	if lr, ok := last.(*ast.ReturnStmt); !ok || len(lr.Results) != len(as.Lhs) {
+		return nil
+	}
+	// the statement after the assignment
+	var list []ast.Stmt
+	switch p := parent.(type) {
+	case *ast.BlockStmt:
+		list = p.List
+	case *ast.CaseClause:
+		list = p.Body
+	case *ast.CommClause:
+		list = p.Body
+	}
+	var guard *ast.IfStmt
+	for i, st := range list {
+		if st == ast.Stmt(as) && i+1 < len(list) {
+			guard, _ = list[i+1].(*ast.IfStmt)
+		}
+	}
+	if guard == nil || guard.Init != nil || guard.Else != nil || len(guard.Body.List) == 0 {
+		return nil
+	}
+	switch t := guard.Body.List[len(guard.Body.List)-1].(type) {
+	case *ast.ReturnStmt:
+	case *ast.BranchStmt:
+		if t.Tok != token.CONTINUE || t.Label != nil {
+			return nil
+		}
+	case *ast.ExprStmt:
+		c, ok := t.X.(*ast.CallExpr)
+		if !ok {
+			return nil
+		}
+		if id, ok := c.Fun.(*ast.Ident); !ok || id.Name != "panic" {
+			return nil
+		}
+	default:
+		return nil
+	}
+	hasLabelOrBreak := false
+	ast.Inspect(guard.Body, func(n ast.Node) bool {
+		switch x := n.(type) {
+		case *ast.LabeledStmt:
+			hasLabelOrBreak = true
+		case *ast.BranchStmt:
+			if x.Label != nil {
+				hasLabelOrBreak = true
+			}
+		}
+		return true
+	})
+	if hasLabelOrBreak {
+		return nil
+	}
+	// the tested variable and the value that makes the guard fire
+	pos, fireOn := -1, ""
+	lhsIdx := func(e ast.Expr) int {
+		id, ok := ast.Unparen(e).(*ast.Ident)
+		if !ok {
+			return -1
+		}
+		for i, l := range as.Lhs {
+			if lid, ok := l.(*ast.Ident); ok && lid.Name == id.Name && lid.Name != "_" && cc.callInfo.ObjectOf(lid) == cc.callInfo.ObjectOf(id) {
+				return i
+			}
+		}
+		return -1
+	}
+	switch c := ast.Unparen(guard.Cond).(type) {
+	case *ast.Ident:
+		pos, fireOn = lhsIdx(c), "true"
+	case *ast.UnaryExpr:
+		if c.Op == token.NOT {
+			pos, fireOn = lhsIdx(c.X), "false"
+		}
+	case *ast.BinaryExpr:
+		if c.Op == token.EQL || c.Op == token.NEQ {
+			x, y := c.X, c.Y
+			if id, ok := ast.Unparen(x).(*ast.Ident); ok && id.Name == "nil" {
+				x, y = y, x
+			}
+			if id, ok := ast.Unparen(y).(*ast.Ident); ok && id.Name == "nil" && c.Op == token.EQL {
+				pos, fireOn = lhsIdx(x), "nil"
+			}
+		}
+	}
+	if pos < 0 {
+		return nil
+	}
+	finfo := fi.Pkg.TypesInfo
+	constKind := func(e ast.Expr) string {
+		if id, ok := ast.Unparen(e).(*ast.Ident); ok {
+			if o := finfo.Uses[id]; o != nil && o.Parent() == types.Universe {
+				switch id.Name {
+				case "true", "false", "nil":
+					return id.Name
+				}
+			}
+		}
+		return ""
+	}
+	for _, r := range rets {
+		if len(r.Results) != len(as.Lhs) {
+			return nil
+		}
+		k := constKind(r.Results[pos])
+		if ast.Stmt(r) == last {
+			if k == fireOn {
+				return nil // the final return fires the guard as well: nothing to thread towards
+			}
+			continue
+		}
+		if k != fireOn {
+			return nil
+		}
+	}
+	// all variables defined here are new
+	tp := &threadPlan{guard: guard, unified: make([]types.Object, len(as.Lhs)), decls: make([]string, len(as.Lhs))}
+	top := map[types.Object]bool{}
+	for _, st := range fi.Decl.Body.List {
+		for _, id := range topLevelDecls(st) {
+			if obj, ok := finfo.Defs[id].(*types.Var); ok {
+				top[obj] = true
+			}
+		}
+	}
+	lastRet := last.(*ast.ReturnStmt)
+	seen := map[types.Object]bool{}
+	for i, l := range as.Lhs {
+		lid, ok := l.(*ast.Ident)
+		if !ok {
+			return nil
+		}
+		if lid.Name == "_" {
+			continue
+		}
+		def := cc.callInfo.Defs[lid]
+		if def == nil {
+			return nil
+		}
+		// unify when the final return carries a top-level local of the helper there and every early return a constant
+		if rid, ok := ast.Unparen(lastRet.Results[i]).(*ast.Ident); ok {
+			if obj, ok := finfo.Uses[rid].(*types.Var); ok && top[obj] && !seen[obj] && types.Identical(obj.Type(), def.Type()) {
+				allConst := true
+				for _, r := range rets {
+					if ast.Stmt(r) != last && constKind(r.Results[i]) == "" {
+						if id2, ok := ast.Unparen(r.Results[i]).(*ast.Ident); !ok || finfo.Uses[id2] != types.Object(obj) {
+							allConst = false
+						}
+					}
+				}
+				if allConst {
+					seen[obj] = true
+					tp.unified[i] = obj
+					continue
+				}
+			}
+		}
+		ts, ok := in.typeString(def.Type(), cc)
+		if !ok {
+			return nil
+		}
+		tp.decls[i] = fmt.Sprintf("var %s %s", lid.Name, ts)
+	}
+	return tp
+}
+
 // declares: the block declares a name at its top level (a nested block may declare what it likes).
 func declares(info *types.Info, b *ast.BlockStmt) bool {
 	for _, st := range b.List {
@@ -2836,7 +3368,91 @@ func tailOf(fn ast.Node, stmt ast.Stmt) bool {
 	if ft == nil || body == nil || len(body.List) == 0 || (ft.Results != nil && len(ft.Results.List) > 0) {
 		return false
 	}
-	return body.List[len(body.List)-1] == stmt
+	// the last statement of the body, or the last statement of a branch (if / else, a clause of a switch or select without
+	// fallthrough, a nested block) of a statement that is itself in tail position; never inside a loop
+	var inTail func(list []ast.Stmt) bool
+	inTail = func(list []ast.Stmt) bool {
+		if len(list) == 0 {
+			return false
+		}
+		lastSt := list[len(list)-1]
+		if lastSt == stmt {
+			return true
+		}
+		switch x := lastSt.(type) {
+		case *ast.BlockStmt:
+			return inTail(x.List)
+		case *ast.IfStmt:
+			for cur := x; cur != nil; {
+				if inTail(cur.Body.List) {
+					return true
+				}
+				switch e := cur.Else.(type) {
+				case *ast.BlockStmt:
+					return inTail(e.List)
+				case *ast.IfStmt:
+					cur = e
+					continue
+				}
+				break
+			}
+		case *ast.SwitchStmt:
+			for _, cl := range x.Body.List {
+				if cc, ok := cl.(*ast.CaseClause); ok && inTail(cc.Body) {
+					return true
+				}
+			}
+		case *ast.TypeSwitchStmt:
+			for _, cl := range x.Body.List {
+				if cc, ok := cl.(*ast.CaseClause); ok && inTail(cc.Body) {
+					return true
+				}
+			}
+		case *ast.SelectStmt:
+			for _, cl := range x.Body.List {
+				if cc, ok := cl.(*ast.CommClause); ok && inTail(cc.Body) {
+					return true
+				}
+			}
+		case *ast.LabeledStmt:
+			return inTail([]ast.Stmt{x.Stmt})
+		}
+		return false
+	}
+	return inTail(body.List)
+}
+
+// tailBeforeConstReturn: the body of fn ends in `return c1, …` with constant operands, and stmt is in tail position of the
+// statement right before it. It returns the text of that return statement, or "".
+func tailBeforeConstReturn(info *types.Info, fn ast.Node, stmt ast.Stmt, in *inliner) string {
+	var body *ast.BlockStmt
+	switch f := fn.(type) {
+	case *ast.FuncDecl:
+		body = f.Body
+	case *ast.FuncLit:
+		body = f.Body
+	}
+	if body == nil || len(body.List) < 2 {
+		return ""
+	}
+	ret, ok := body.List[len(body.List)-1].(*ast.ReturnStmt)
+	if !ok || len(ret.Results) == 0 {
+		return ""
+	}
+	for _, e := range ret.Results {
+		tv, has := info.Types[e]
+		if !has || (tv.Value == nil && !tv.IsNil()) {
+			if id, isID := ast.Unparen(e).(*ast.Ident); !isID || (id.Name != "nil" && id.Name != "true" && id.Name != "false") {
+				return ""
+			}
+		}
+	}
+	// a function without results whose body is everything before the final return
+	shadow := &ast.FuncLit{Type: &ast.FuncType{Params: &ast.FieldList{}}, Body: &ast.BlockStmt{List: body.List[:len(body.List)-1]}}
+	if !tailOf(shadow, stmt) {
+		return ""
+	}
+	return in.text(ret)
 }
 
 func orEmpty(s string) string {
